@@ -896,10 +896,26 @@ def check_redundant(ctx):
     for g in [f] + [x for x in region if x.qual in helpers]:
         t = Table(prog, g)
         for p in t.paths:
+            # lines collected in a local list that is written out afterwards
+            out_lists = set()
             for e in p.events:
-                is_print = e.kind == 'call' and U(e.node.func) == 'print'
+                if e.kind == 'call' and U(e.node.func) in (
+                        'sys.stdout.writelines', 'sys.stdout.write',
+                        'print'):
+                    for a in e.node.args:
+                        for x in ast.walk(a):
+                            if isinstance(x, ast.Name) and x.id.startswith(
+                                    'SYM_m'):
+                                out_lists.add(x.id)
+            for e in p.events:
+                is_print = e.kind == 'call' and U(e.node.func) == 'print' \
+                    and not any(isinstance(x, ast.Name) and x.id in out_lists
+                                for a in e.node.args for x in ast.walk(a))
                 is_yield = e.kind == 'yield' and g is not f
-                if not (is_print or is_yield):
+                is_collect = e.kind == 'call' and method_call(
+                    e.node, 'append') and U(method_call(e.node)[0]) in \
+                    out_lists
+                if not (is_print or is_yield or is_collect):
                     continue
                 n += 1
                 conds = p.conds[:e.nconds]
